@@ -11,6 +11,10 @@ CODEC_NOTE = ("Trusted: the TLA+ transcription of X.690/X.680 in spec/X690.tla (
               "form, prefix-freeness, tail preservation, reader monotonicity), TLC, the term<->object binding in harness/universe.py "
               "(public pyasn1 API only). Known findings are matched by exact named deviations of the reference encoder or by narrow "
               "feature signatures (known_findings.json).")
+STREAM_TEXT = ("TLC model-checks the mechanism specification against the ideal one (refinement, invariants, liveness) for the layouts in "
+               "use; the real implementation is then driven along exhaustively enumerated schedules / histories and every "
+               "recorded step is accepted or rejected by a TLA+ trace acceptor that reuses the specification's actions. "
+               "Exhaustive within the stated bounds (stream length, history length), sampled beyond them.")
 CLAIMED = {
     'C01': ('6 C01', 'spec-generated (type,value) cases x 12 encoder modes, round trip judged by the reference model'),
     'C02': ('6 C02', 'DER/CER round trips through every wider decoder + agreement, judged by the reference model'),
@@ -21,6 +25,9 @@ CLAIMED = {
     'C13': ('6 C13', 'tag algebra of spec/X690.tla vs tagSet objects, identifier octets, near-miss rejection'),
     'C15': ('6 C15', 'single-element non-canonical rewrites validated by the reference readers, then required to be rejected'),
     'C16': ('6 C16', 'schemaless decoding of self-describing encodings: leaves and DER re-encoding'),
+    'C05': ('6 C05', 'StreamMech refines StreamIdeal (TLC); every arrival partition x close timing x idle polls x stream kinds driven through the real StreamingDecoder, each poll judged by the ideal layer (Trace_Stream)'),
+    'C08': ('6 C08', 'all short strings over a structural alphabet + single mutations of valid encodings; status class and step bound judged by Trace_Clean'),
+    'C11': ('6 C11', 'CacheWrap model (invariant + refinement of a seekable stream); exhaustive operation histories on the real CachingStreamWrapper accepted by Trace_Wrap; 10 substrate kinds compared by Trace_Kinds'),
 }
 checks = []
 for p in props:
@@ -31,7 +38,7 @@ for p in props:
             'property_id': i, 'quick_cmd': './check %s --tier quick' % i, 'thorough_cmd': './check %s --tier thorough' % i,
             'evidence_file': 'evidence/%s.json' % i, 'replay_cmd_template': './check %s --replay {path}' % i,
             'engine': 'tlc+trace', 'technique': 'TLA+ model (TLC) + trace validation of pyasn1 executions: ' + tech,
-            'level_claimed': {'category': 'model_checking', 'text': CODEC_TEXT, 'design_ref': 'DESIGN.md section ' + ref},
+            'level_claimed': {'category': 'model_checking', 'text': STREAM_TEXT if i in ('C05', 'C08', 'C11') else CODEC_TEXT, 'design_ref': 'DESIGN.md section ' + ref},
             'level_note': CODEC_NOTE})
 na = [{'property_id': p['id'], 'reason': 'check not built yet (work in progress; see DESIGN.md section 6)'}
       for p in props if p['id'] not in CLAIMED]
